@@ -364,7 +364,8 @@ def check_property(pid, tier, seed, replay_only=None):
             jobs.append((suite, sc, sd))
 
     race_bin = None
-    if tier == "thorough" and P.get("race_suites"):
+    race_list = P.get("race_suites") if tier == "thorough" else P.get("race_quick")
+    if race_list:
         # the same suites once more through an executor built with the Go race detector: a report makes the process exit
         # with status 66, which shows up as a crash attributed to the line being executed
         race_bin = os.path.join(HARNESS, "bin", "harness-race")
@@ -376,8 +377,8 @@ def check_property(pid, tier, seed, replay_only=None):
             race_bin = None
             info["race_build_error"] = r.stdout[-500:]
         else:
-            for (suite, scale) in P["race_suites"]:
-                for sd in range(seed, seed + 3):
+            for (suite, scale) in race_list:
+                for sd in range(seed, seed + (3 if tier == "thorough" else 1)):
                     jobs.append(("race:" + suite, scale, sd))
 
     def run_job(job):
@@ -536,6 +537,9 @@ def setup():
         print(build_facts())
         build_lean()
         build_harness()
+        # warm the Go build cache for the race-detector executor (C12 uses it in both tiers)
+        run(["go", "build", "-race", "-tags", "verif", "-o", os.path.join(HARNESS, "bin", "harness-race"), "."], cwd=HARNESS, env=goenv(),
+            timeout=900)
     except BuildError as e:
         print("SETUP FAILED at %s\n%s" % (e.stage, e.log[-3000:]))
         return 1
